@@ -25,6 +25,7 @@ ASSUMPTIONS = ['simulated kernel calibrated against real psutil/subprocess',
                'rm nostop leaves workers alive by documented design (not judged)',
                'a stop that never completes is reported by C05 (blocked loop), not here']
 BUDGET = {'quick': 240, 'thorough': 1500}
+CASE_TIMEOUT = 180          # a LIVE history (real daemon, real grace periods) takes 20-60 s of wall clock
 EXHAUSTIVE = None
 CAP = 80
 
@@ -35,7 +36,8 @@ OPS = ['stop', 'stop', 'restart', 'rm', 'quit', 'quit_signal', 'stopall']
 
 def plan(tier, seed):
     n = 260 if tier == 'quick' else 6000
-    return [{'kind': 'base', 'seed': seed, 'idx': i} for i in range(n)]
+    return ([{'kind': 'base', 'seed': seed, 'idx': i} for i in range(n)] +
+            [{'kind': 'live', 'seed': seed, 'idx': i} for i in range(3 if tier == 'quick' else 30)])
 
 
 def materialise(spec):
@@ -64,8 +66,29 @@ def materialise(spec):
     return h
 
 
+def live_case(spec, res):
+    """the same property on a real circusd with real workers: wall clock and /proc instead of the simulated kernel"""
+    from vlib import livehist
+    rnd = rng_for(spec['seed'], 'C02-live', spec['idx'])
+    ls = livehist.gen_spec(rnd, nsteps=5, stop_heavy=True)
+    rec = livehist.run(ls, strace=False, probe=False)
+    if rec['problem']:
+        res.inconclusive.append('live: ' + rec['problem'][:200])
+        return
+    livehist.judge_stop(rec, res, ls)
+    res.obs['live_daemons'] += 1
+    res.nontrivial(repr(('live', [(w['kind'], w['np']) for w in ls['watchers']], ls['steps'])))
+    if res.sample is None:
+        res.sample = {'live': True, 'watchers': ls['watchers'], 'steps': ls['steps']}
+
+
 def run_case(spec):
     res = CaseResult()
+    if spec.get('kind') == 'live':
+        live_case(spec, res)
+        for v in res.viol:
+            v['spec'] = spec
+        return res
     if 'steps' in spec:           # concrete history (replay)
         run_history(spec, res, spec.get('inject_at'))
         return res
